@@ -8,6 +8,7 @@ from vf.ref import regexsem as rs
 from vf.worker import call
 
 PROP = "C05"
+TECHNIQUE = "runtime contracts with shadow state: every Regex object carries the reference denotation of the text it was parsed from (independent parser), compared at every later call"
 RULE = ("regex texts rendered from random ASTs (depth <=4, tokens a b cd x1, escaped operators, epsilon/$; minimal or "
         "redundant parentheses, ' ' or '.' concatenation, '|' or '+' union, varied blanks) and ill-formed texts obtained "
         "by deleting/duplicating/swapping one token or from a hand list; a shadow denotation (independent parser -> "
